@@ -40,6 +40,7 @@ type BurstSender struct {
 	Signal      string
 	Transport   string
 	Compression string
+	Level       int    // compression_params.level (HTTP exporters; 0 = not set)
 	Base        []byte // small generated payload riding along (proto bytes)
 	Items       int    // id-tagged items in front of it ...
 	ItemBytes   int    // ... each carrying a string of this many bytes
@@ -189,6 +190,7 @@ func genBurst(t *rapid.T) BurstScript {
 			Fail:      rapid.SampledFrom([]string{"", "", "", "", "plain", "permanent"}).Draw(t, "fail"),
 		}
 		b.Compression = rapid.SampledFrom(compressionsOf(b.Transport)).Draw(t, "compression")
+		b.Level = rapid.SampledFrom(levelsOf(b.Transport, b.Compression)).Draw(t, "level")
 		switch rapid.SampledFrom([]string{"small", "medium", "large", "large", "large", "large"}).Draw(t, "size") {
 		case "small":
 			b.Items, b.ItemBytes = rapid.IntRange(1, 5).Draw(t, "items"), rapid.IntRange(0, 32).Draw(t, "item_bytes")
@@ -211,7 +213,7 @@ type burstRec struct {
 func runBurst(s BurstScript) (nontrivial bool, key string, f *vt.Finding) {
 	parts := []any{s.Reps}
 	for _, b := range s.Senders {
-		parts = append(parts, b.Signal, b.Transport, b.Compression, b.Items, b.ItemBytes, b.Sends, b.Fail, b.Base)
+		parts = append(parts, b.Signal, b.Transport, b.Compression, b.Level, b.Items, b.ItemBytes, b.Sends, b.Fail, b.Base)
 	}
 	key = scriptKey(parts...)
 	cBurst.HangGuard(300*time.Second, s, "hang/burst", func() {
@@ -240,7 +242,7 @@ func runBurstOnce(s *BurstScript, rep int64) (bool, *vt.Finding) {
 	sends := make([]sendFunc, len(s.Senders))
 	large, httpLarge, total := 0, 0, 0
 	for i, b := range s.Senders {
-		send, err := E.exporter(expKey{transport: b.Transport, compression: b.Compression, cred: "none", signal: b.Signal})
+		send, err := E.exporter(expKey{transport: b.Transport, compression: b.Compression, level: b.Level, cred: "none", signal: b.Signal})
 		if err != nil {
 			return false, vt.Failf("harness/exporter", "cannot create exporter %s/%s: %v", b.Transport, b.Compression, err)
 		}
@@ -329,7 +331,7 @@ func runBurstOnce(s *BurstScript, rep int64) (bool, *vt.Finding) {
 	}
 	sort.Slice(ids, func(a, b int) bool { return ids[a] < ids[b] })
 	desc := func(b BurstSender) string {
-		return fmt.Sprintf("%s over %s/%s, %d items x %d B", b.Signal, b.Transport, orNone(b.Compression), b.Items, b.ItemBytes)
+		return fmt.Sprintf("%s over %s/%s level %d, %d items x %d B", b.Signal, b.Transport, orNone(b.Compression), b.Level, b.Items, b.ItemBytes)
 	}
 	if len(unidentified) > 0 {
 		return nontrivial, vt.Failf("burst/unknown-payload", "the consumer received %d payloads without an id tag although every sender tags its payloads (first: %s, %d bytes)", len(unidentified), unidentified[0].signal, len(unidentified[0].bytes))
